@@ -305,8 +305,12 @@ def query_ids(rep, prog):
                                     if 'zero' in other or 'ground' in other: v = f'equals the reference label ({other})'
                                 if (isinstance(op, ast.In) and val) or (isinstance(op, ast.NotIn) and not val):
                                     if ast.unparse(tst.left) == idname: v = f'membership established ({ast.unparse(tst)[:50]})'
-                            if v is None and step[1] is not None:
-                                v = _validates(step[1], idname) if False else None
+                            if v is None and isinstance(tst, ast.Call) and val:
+                                fnm = tst.func.attr if isinstance(tst.func, ast.Attribute) else getattr(tst.func, 'id', '')
+                                argn = set()
+                                for a_ in list(tst.args) + [k_.value for k_ in tst.keywords]: argn |= names_in(a_)
+                                if idname in argn and ('zero' in fnm or 'ground' in fnm or 'reference' in fnm):
+                                    v = f'is the reference node ({fnm}())'
                         elif step[0] in ('stmt', 'return', 'loop'):
                             node = step[1].iter if step[0] == 'loop' else step[1]
                             v = v or _validates(node, idname)
